@@ -214,6 +214,8 @@ def explore_slice(h, sl, deadline, known_regions=(), max_cex=1, validate_every=7
             res["errors"].append("poisoned path: %s" % c.poisoned)
         elif c.dead:
             res["vacuous"] += 1
+            if c.inconclusive:
+                res["exhaustive_blocked"] = True
         else:
             # reachability twin: the path condition itself must be satisfiable here
             r = c.check()
@@ -333,7 +335,7 @@ def explore_slice(h, sl, deadline, known_regions=(), max_cex=1, validate_every=7
         if len(res["errors"]) > 5:
             break
         if not core.backtrack(prefix):
-            res["exhaustive"] = True
+            res["exhaustive"] = not res.get("exhaustive_blocked", False)
             break
         if time.time() > deadline:
             break
